@@ -13,3 +13,5 @@ mod csptp_server;
 mod csptp_client;
 #[cfg(test)]
 mod estimator;
+#[cfg(test)]
+mod timearith;
